@@ -90,6 +90,18 @@ def exp_core(t):
     return l, (const_val(ax) if ax is not None else None), (const_val(kd) if kd is not None else False)
 
 
+def plain_log_pdf(t):
+    """the log-pdf parameter itself, an indexed view of one, or a sum of such (streams added in the log domain)"""
+    t = strip_views(t)
+    if t.op == 'param':
+        return True
+    if t.op == 'sub':
+        return plain_log_pdf(t.args[0])
+    if t.op == 'binop' and t.args[0] == 'Add':
+        return plain_log_pdf(t.args[1]) and plain_log_pdf(t.args[2])
+    return False
+
+
 def normalisation_sites(graph):
     """all divisions of the form NUM / maximum(sum(NUM', axis, keepdims), POS) in a function graph"""
     seen, out = set(), []
@@ -129,6 +141,9 @@ def check_posterior_routine(run, A, qual, class_axis, want_weight, want_mask, mi
                           construct=f'ORDER::{qual}::exp-factor')
             continue
         l, a1, kd1 = exp_core(exps[0][0])
+        run.check(plain_log_pdf(l), 'ORDER', f'{short}: the max-shift is applied to the component log-pdf as given', where, '',
+                  'the value that is max-shifted and exponentiated is a transformed log-pdf (masking / weighting in the log domain introduces -inf: '
+                  '-inf - (-inf) = NaN for observations whose classes are all inactive or have zero weight)', construct=f'ORDER::{qual}::log-domain-input')
         run.check(a1 == class_axis and kd1 is True and a1 == ax, 'R-AXIS', f'{short}: max-subtraction over the class axis', where,
                   f'amax(axis={a1}, keepdims={kd1}) agrees with the sum axis',
                   f'max-subtraction uses axis={a1!r}, keepdims={kd1!r} but the normalising sum uses axis={ax!r} (class axis {class_axis})',
